@@ -385,7 +385,7 @@ def d7_cambridge(ctx):
             defs.setdefault(astx.u(n.targets[0]), []).append((bool_key(N.conj(astx.path_condition(init.node, n, pm, carried=False))), astx.u(n.value)))
     w = dict(defs.get("self.W_bloc", []))
     c = dict(defs.get("self.C_bloc", []))
-    good = w.get("isnone(W_bloc)") == "[bloc for bloc, prop in self.bloc_voter_prop.items() if prop >= 0.5][0]" and w.get("not isnone(W_bloc)") == "W_bloc" \
+    good = w.get("isnone(W_bloc)") == "[bloc for bloc, prop in self.bloc_voter_prop.items() if 0.5 <= prop][0]" and w.get("not isnone(W_bloc)") == "W_bloc" \
         and c.get("isnone(C_bloc)") == "[bloc for bloc in self.bloc_voter_prop.keys() if bloc != self.W_bloc][0]" and c.get("not isnone(C_bloc)") == "C_bloc"
     ctx.check(good, init, init.node, "Cambridge: majority bloc = the bloc with share >= 1/2 unless given; minority bloc = the other one", f"{w} / {c}", f"bloc defaults are {w} / {c}")
     m = dict(defs.get("self.bloc_to_historical", []))
